@@ -69,6 +69,17 @@ TRUSTED["C14"] = [
 ]
 TRUSTED["C03"] = TRUSTED["C14"][2:]
 
+TRUSTED["C13"] = [
+    "A6: scipy.signal.csd(x, y, fs, window, nperseg, noverlap, nfft) is Welch's averaged one-sided cross spectral density of conj(X) Y with "
+    "constant detrending per segment, broadcasting over leading axes, on the grid k*fs/nfft - modelled as an uninterpreted function of the two "
+    "series and every estimation parameter; numpy.fft.rfft/irfft and scipy.signal.windows.exponential likewise",
+    "series abstraction: a row of an array as an uninterpreted function of the free constants of its element expression",
+]
+TRUSTED["C04"] = TRUSTED["C13"] + [
+    "numpy.linalg.inv and matrix products of kernel results as uninterpreted functions over matrix terms; matrix extensionality lemma",
+    "contract of fdd.SD_est (proved under C13) at the call sites of SD_PreGER",
+]
+
 ASSUMPTIONS = {
     "C09": [
         "a mode-shape vector in a pole table is either entirely non-finite or entirely finite",
@@ -89,7 +100,15 @@ ASSUMPTIONS["C14"] = ["number of datasets of a PreGER object enumerated (2); cha
                       "the history clause follows by induction from the per-operation contracts, each proved from an arbitrary state satisfying the "
                       "representation invariant (Inv_S / Inv_M) and re-establishing it"]
 
+ASSUMPTIONS["C04"] = ["number of setups enumerated (2); reference/roving counts, record lengths, nxseg, pov, fs symbolic",
+                      "reference blocks invertible at every line (well-conditioned references)"]
+
 NOT_DECIDED = {
+    "C13": ["what scipy's csd computes (Hermitian PSD, Welch equivalence, Parseval, gain-and-delay phase, sinusoid amplitudes): statements about scipy; "
+            "the proof shows SD_est calls it with exactly the prescribed operands/parameters and returns its result unchanged ('per') or through the "
+            "prescribed irfft-window-rfft chain ('cor')"],
+    "C04": ["the identical-reference corollary (merged = single-setup matrix) is the three-axiom lemma of DESIGN section 4 over the proved block structure; "
+            "per-setup gain independence likewise follows from the structure"],
     "C14": ["absence of aliasing between user arrays and internal state beyond what the contracts state (data is the user's array after __init__, by design)"],
     "C16": ["that the modes finally extracted are those poles follows from C11's per-mode contract, not re-proved here"],
     "C02": ["the end-to-end SSI clause (shapes coming from SSI runs) is left to C01/C03"],
